@@ -103,7 +103,18 @@ func (a *Agent) Start(p pool.Pool) error {
 		a.mu.Unlock()
 		return ErrAlreadyStarted
 	}
+	a.started = true
 	a.mu.Unlock()
+
+	started := false
+	defer func() {
+		if !started {
+			// Failed to start, allow trying again.
+			a.mu.Lock()
+			a.started = false
+			a.mu.Unlock()
+		}
+	}()
 
 	startCtx, cancel := context.WithTimeout(context.Background(), startTimeout)
 	defer cancel()
@@ -141,8 +152,13 @@ func (a *Agent) Start(p pool.Pool) error {
 		return err
 	}
 
+	started = true
 	go func() {
-		a.waitCh <- a.serveUpdates(p)
+		err := a.serveUpdates(p)
+		a.mu.Lock()
+		a.started = false
+		a.mu.Unlock()
+		a.waitCh <- err
 	}()
 	return nil
 }
@@ -180,10 +196,6 @@ func (a *Agent) serveUpdates(p pool.Pool) error {
 				return err
 			}
 		case <-a.stopCh:
-			a.mu.Lock()
-			a.started = false
-			a.mu.Unlock()
-
 			// FIXME: Does it make sense to call a.disconnectPeers(...) here?
 			return nil
 		}
